@@ -237,7 +237,7 @@ def run_check(prop, tier, seed):
         if st.get("valgrind"):
             runner = ["valgrind", "-q", "--error-exitcode=77", "--exit-on-first-error=yes", binaries[fl]]
         res = D.run_stage(runner, fl, st["universes"], st["mode"], st["runs"], seed,
-                          st["args"] + kargs)
+                          st["args"] + kargs, chunk=10 if st.get("valgrind") else None)
         D.add_stats(agg["stats"], res.stats)
         agg["sigs"] |= res.sigs
         for s in res.samples:
